@@ -159,7 +159,7 @@ def enum_classics(tier):
 
 
 def enum_tiny(tier):
-    stride = 30 if tier == "quick" else 2
+    stride = 12 if tier == "quick" else 1
 
     def it():
         for i, g in enumerate(gen.tiny_grammars(1 if tier == "quick" else 2)):
@@ -172,9 +172,9 @@ def enum_tiny(tier):
 SUBCHECKS = [
     SubCheck("classics", run_case, enumerate=enum_classics),
     SubCheck("tiny-exhaustive", run_case, enumerate=enum_tiny),
-    SubCheck("random-L0", run_case, strategy=strat_l0, examples={"quick": 800, "thorough": 8000}),
-    SubCheck("random-L0-larger", run_case, strategy=strat_l0_big, examples={"quick": 320, "thorough": 3000}),
-    SubCheck("random-L1-overlapping", run_case, strategy=strat_l1, examples={"quick": 320, "thorough": 3000}),
+    SubCheck("random-L0", run_case, strategy=strat_l0, examples={"quick": 2400, "thorough": 24000}),
+    SubCheck("random-L0-larger", run_case, strategy=strat_l0_big, examples={"quick": 640, "thorough": 6400}),
+    SubCheck("random-L1-overlapping", run_case, strategy=strat_l1, examples={"quick": 640, "thorough": 6400}),
 ]
 
 
